@@ -287,11 +287,25 @@ func c07Compare(c *vk.Ctx, key string, a *app.App, cfg app.Config, hist []string
 					}
 				}
 				ll2.Close()
-				bi, err := app.NewBackend(bk)
-				if err == nil {
+				// pass 0: a persister of its own for every request; pass 1: one persister object serves both sessions
+				// (worker-wide persister: WithFlush from the first request on, or a plain one for sessions that exist),
+				// and at PRNG points a request is executed and flushed but abandoned before Finish (client gone)
+				for pass := 0; pass < 2; pass++ {
+					bi, err := app.NewBackend(bk)
+					if err != nil {
+						continue
+					}
 					prA := app.NewPerRequest(a, cfg, bi)
 					prB := app.NewPerRequest(a, cfg2, bi)
 					prA.SkipStoredRead, prB.SkipStoredRead = true, true
+					mode := "own"
+					ra := c.RNG(key + "/abandon/" + bk)
+					if pass == 1 {
+						mode = vk.Pick(ra, []string{"flush", "plain"})
+						sp := &app.SharedPersister{Mode: mode}
+						prA.Shared, prB.Shared = sp, sp
+						defer sp.Close()
+					}
 					okA, okB := true, true
 					for step := 0; step < len(ref) || step < len(ref2); step++ {
 						for which, pr := range []*app.PerRequest{prA, prB} {
@@ -302,16 +316,31 @@ func c07Compare(c *vk.Ctx, key string, a *app.App, cfg app.Config, hist []string
 							if !*ok || step >= len(rf) {
 								continue
 							}
+							if pass == 1 && step > 0 && os.Getenv("NOABANDON") == "" && ra.Chance(1, 5) {
+								// an abandoned request: same input as the real one that follows, never finished
+								calls := cloneCalls(pr.Res.Calls)
+								pr.AbandonNext = true
+								pr.Request([]byte(h[step]))
+								pr.Res.Calls = calls
+								c.Count("abandoned_requests", 1)
+							}
 							o := pr.Request([]byte(h[step]))
 							c.Count("interleaved_requests", 1)
+							c.Count("interleaved_requests:persister-"+mode, 1)
 							ro := rf[step]
 							if o.Panic != "" || ro.Panic != "" {
 								*ok = false
 								continue
 							}
 							if o.Cont != ro.Cont || app.ErrClass(o.ExecErr) != app.ErrClass(ro.ExecErr) || app.ErrClass(o.FlushErr) != app.ErrClass(ro.FlushErr) || o.Out != ro.Out {
-								c.Violate("interleaved-sessions-diverge:"+bk, fmt.Sprintf("two sessions alternating on one %s store: session %d step %d: uninterrupted %s | persisted %s", bk, which+1, step, ro.Brief(), o.Brief()), key,
-									map[string]interface{}{"backend": bk, "config": cfg, "app": a.Describe(), "history_session_1": hist, "history_session_2": hist2})
+								sig := "interleaved-sessions-diverge:" + bk
+								what := "a persister of its own per request"
+								if pass == 1 {
+									sig = "interleaved-sessions-diverge:shared-persister-" + mode + ":" + bk
+									what = "one shared persister object (" + mode + "), some requests abandoned before Finish"
+								}
+								c.Violate(sig, fmt.Sprintf("two sessions alternating on one %s store, %s: session %d step %d: uninterrupted %s | persisted %s", bk, what, which+1, step, ro.Brief(), o.Brief()), key,
+									map[string]interface{}{"backend": bk, "config": cfg, "app": a.Describe(), "history_session_1": hist, "history_session_2": hist2, "persister": mode})
 								okA, okB = false, false
 								continue
 							}
